@@ -194,6 +194,8 @@ def run(chk, repo, tier):
                 ((NONE,) if any(pol and fmt(c) == f'is(self._{nm}, (None))' for c, pol, _ in p.conds) else ())
             new_ok = new_ok and b.get('waveunit') in alts('waveunit') and b.get('valueunit') in alts('valueunit')
             ic = p.calls('radiometry._interp_common')
+            if not ic and other_is_spectrum(p) and not repo.has_func('radiometry._interp_common'):
+                continue            # the common grid is built in place: judged by the rules about that grid
             if not ic:
                 wv = b.get('wave')
                 keep_ok = wv in (nf.attr(S('self'), 'wave'), nf.attr(S('self'), '_wave'))
@@ -257,7 +259,8 @@ def run(chk, repo, tier):
                      'so `spectrum * np.int64(2)` raises TypeError'
     chk.ob('C13-e', 'T-dispatch', fu.key, 'numpy scalars are scalars: they reach the element-wise branch', ok_sc, det_sc, fu.loc())
     chk.ob('C13-e', 'D-flow', fu.key, 'two spectra: grid and values from _interp_common(self, other, ...)',
-           two_ok and two_seen, '', fu.loc())
+           (two_ok and two_seen) if repo.has_func('radiometry._interp_common') else None,
+           '' if repo.has_func('radiometry._interp_common') else 'undecided: the helper that builds the common grid is gone', fu.loc())
     chk.ob('C13-e', 'D-flow', fu.key, 'two spectra: the value is the operation applied to the two interpolated values and nothing else '
            '(fill values, infinities and NaNs included)', (value_ok and two_seen) if (two_seen or not value_ok) else None, value_det, fu.loc())
     chk.ob('C13-e', 'D-flow', fu.key, 'returns a new Spectrum in the first operand\'s units', new_ok, '', fu.loc())
